@@ -73,7 +73,7 @@ mutual
 def synOk : PyE → Bool
   | .name n => pyIdent n || n == "None" || n == "True" || n == "False"
   | .attr q n => pyIdent q && pyIdent n
-  | .attr2 q o n => pyIdent q && pyIdent o && pyIdent n
+  | .attr2 q o n => (q == "" || pyIdent q) && pyIdent o && pyIdent n
   | .quoted _ => true
   | .sub h as => synOk h && !as.isEmpty && synsOk as
   | .lit _ ok => ok
